@@ -591,10 +591,17 @@ pub fn abstract_trace(run: &Run) -> Vec<(AStep, usize)> {
         let is_ndb = ev.path == run.ndb_path;
         if ev.failed {
             // a failed WAL write in the middle of an append leaves a torn frame behind
-            if is_wal && ev.kind == IoKind::Write && ev.data.len() != 4 {
-                out.push((AStep::Torn, i + 1));
-            } else if is_wal && ev.kind == IoKind::Write {
-                // the length field itself failed: nothing was written
+            // a failed WAL write leaves the part of the frame written so far behind, unless the
+            // append rolls the file back to its previous length (SetLen before the next append)
+            if is_wal && ev.kind == IoKind::Write {
+                let rolled_back = evs[i + 1..]
+                    .iter()
+                    .take_while(|e| !(e.path == run.wal_path && e.kind == IoKind::Write))
+                    .any(|e| e.path == run.wal_path && e.kind == IoKind::SetLen && !e.failed);
+                let first_of_frame = ev.data.len() == 4 && (i == 0 || !(evs[i - 1].path == run.wal_path && evs[i - 1].kind == IoKind::Write && evs[i - 1].data.len() == 4 && evs[i - 1].offset + 4 == ev.offset));
+                if !rolled_back && !first_of_frame {
+                    out.push((AStep::Torn, i + 1));
+                }
             }
             i += 1;
             continue;
